@@ -816,7 +816,12 @@ theorem step_abs (q : Quirks) (S : Schema) (a : Alloc σ) (ha : a.Valid) (st : S
             generalize SG.addFact q S a S.fuel st2 f ws wt false = st3 at *
             have a3 := abs_heap st3 (st3.h.write S f s t) (by simp)
             have hh3 : st3.h = (st2.abs.assert S f ws.toR wt.toR).h := by rw [← r2]; rfl
-            rw [a3, hh3, r2, ae, ← e.2.2.2.1, ← e.2.2.2.2.1]
+            have k : ({ st3 with h := (st3.h.write S f s t).kill (Heap.garbage q (st3.h.write S f s t)) } : St σ).abs =
+                ({ ({ st3 with h := st3.h.write S f s t } : St σ).abs with
+                   h := (st3.h.write S f s t).kill (Heap.garbage q (st3.h.write S f s t)) } : Spec).prune :=
+              abs_kill ({ st3 with h := st3.h.write S f s t } : St σ) _
+            simp only [Heap.collect]
+            rw [k, a3, hh3, r2, ae, ← e.2.2.2.1, ← e.2.2.2.2.1]
         | set =>
           simp only [hk] at hok ⊢
           have e := hI.ensure2 ha xs xt hxs.1 hxt.1
@@ -844,7 +849,12 @@ theorem step_abs (q : Quirks) (S : Schema) (a : Alloc σ) (ha : a.Valid) (st : S
             generalize SG.addFact q S a S.fuel st2 f ws wt false = st3 at *
             have a3 := abs_heap st3 (st3.h.write S f s t) (by simp)
             have hh3 : st3.h = (st2.abs.assert S f ws.toR wt.toR).h := by rw [← r2]; rfl
-            rw [a3, hh3, r2, ae, ← e.2.2.2.1, ← e.2.2.2.2.1]
+            have k : ({ st3 with h := (st3.h.write S f s t).kill (Heap.garbage q (st3.h.write S f s t)) } : St σ).abs =
+                ({ ({ st3 with h := st3.h.write S f s t } : St σ).abs with
+                   h := (st3.h.write S f s t).kill (Heap.garbage q (st3.h.write S f s t)) } : Spec).prune :=
+              abs_kill ({ st3 with h := st3.h.write S f s t } : St σ) _
+            simp only [Heap.collect]
+            rw [k, a3, hh3, r2, ae, ← e.2.2.2.1, ← e.2.2.2.2.1]
         | plain =>
           simp only [hk] at hok ⊢
           have e := hI.ensure2 ha xs xt hxs.1 hxt.1
@@ -872,7 +882,12 @@ theorem step_abs (q : Quirks) (S : Schema) (a : Alloc σ) (ha : a.Valid) (st : S
             generalize SG.addFact q S a S.fuel st2 f ws wt false = st3 at *
             have a3 := abs_heap st3 (st3.h.write S f s t) (by simp)
             have hh3 : st3.h = (st2.abs.assert S f ws.toR wt.toR).h := by rw [← r2]; rfl
-            rw [a3, hh3, r2, ae, ← e.2.2.2.1, ← e.2.2.2.2.1]
+            have k : ({ st3 with h := (st3.h.write S f s t).kill (Heap.garbage q (st3.h.write S f s t)) } : St σ).abs =
+                ({ ({ st3 with h := st3.h.write S f s t } : St σ).abs with
+                   h := (st3.h.write S f s t).kill (Heap.garbage q (st3.h.write S f s t)) } : Spec).prune :=
+              abs_kill ({ st3 with h := st3.h.write S f s t } : St σ) _
+            simp only [Heap.collect]
+            rw [k, a3, hh3, r2, ae, ← e.2.2.2.1, ← e.2.2.2.2.1]
   | mkq k c dom =>
     simp only [hh] at hok ⊢
     by_cases hc : (st.h.qvars.any fun v => v.key == k) = true
@@ -1389,8 +1404,8 @@ theorem specStep_sim (q : Quirks) (S : Schema) (U : List Obj) (s1 s2 : Spec) (op
           rw [hga]
           refine ⟨e2, o, x, ?_⟩
           generalize ((s2.ensure xa).ensure xb).assert S f ⟨xa.obj, xa.cls⟩ ⟨xb.obj, xb.cls⟩ = B
-          show ({ B with h := Heap.write S { B.h with used := u, epoch := e2, out := o, exprs := x } f a b } : Spec) = _
-          rw [ghost_write]; rfl
+          show ({ B with h := Heap.collect q (Heap.write S { B.h with used := u, epoch := e2, out := o, exprs := x } f a b) } : Spec).prune = _
+          rw [ghost_write, ghost_collect]; rfl
       · exact ⟨e, o, x, rfl⟩
     | mkq k c dom =>
       simp only [specStep]
@@ -1754,7 +1769,8 @@ theorem specStep_inv (q : Quirks) (S : Schema) (s : Spec) (op : Op) (hI : SpecIn
       · have h2 := (hI.ensure xa hxa.1).ensure xb hxb.1
         have h3 := h2.assert S f ⟨xa.obj, xa.cls⟩ ⟨xb.obj, xb.cls⟩
           ((isLive_iff _ _).2 ⟨xa, hxa.1, rfl⟩) ((isLive_iff _ _).2 ⟨xb, hxb.1, rfl⟩)
-        exact h3.write S f a b ((isLive_iff _ _).2 ⟨xa, by rw [(assert_heap S _ f _ _).1]; exact hxa.1, hxa.2⟩)
+        have h4 := h3.write S f a b ((isLive_iff _ _).2 ⟨xa, by rw [(assert_heap S _ f _ _).1]; exact hxa.1, hxa.2⟩)
+        exact h4.collectPrune q _ rfl (fun _ h => h) rfl
     · exact hI
   | mkq k c dom =>
     simp only [specStep]
